@@ -103,7 +103,8 @@ PAIRS = [
 QUICK_WARM = ["same-config-same-language", "same-call-twice", "settings-differ-irrelevant-field", "shared-settings-dict-fr-vs-en",
               "skip-tokens-differ", "parse-vs-search", "relative-base-differs", "default-parser-tz-string-vs-other-language",
               "same-config-fr-custom-settings"]
-QUICK_COLD = ["shared-settings-dict-fr-vs-en"]
+QUICK_WARM_REV = ["relative-base-differs", "same-config-same-language", "settings-differ-irrelevant-field"]
+QUICK_COLD = ["shared-settings-dict-fr-vs-en", "relative-base-differs"]
 THOROUGH_COLD_ALL = ["shared-settings-dict-fr-vs-en", "same-config-same-language", "skip-tokens-differ"]
 
 _CALLS = None
@@ -153,6 +154,16 @@ def _in_child(fn, *a):
     return res
 
 
+def _warm_up(init, A, Bc):
+    """Initial states: cold (nothing ran), warm (A then B ran once), warm-rev (B then A ran once: the preempted call's effects are the latest)."""
+    if init == "warm":
+        A()
+        Bc()
+    elif init == "warm-rev":
+        Bc()
+        A()
+
+
 def _driver(task):
     """One (pair, role, init, selection) exploration; runs in a process forked from the pristine parent."""
     try:
@@ -161,9 +172,7 @@ def _driver(task):
         t_start = time.time()
         clock.freeze(NOW)
         A, Bc = call(a_name), call(b_name)
-        if init == "warm":
-            A()
-            Bc()
+        _warm_up(init, A, Bc)
         def timed_ab():
             ra = A()
             t1 = time.time()
@@ -373,9 +382,7 @@ def _measure(task):
         pname, a_name, b_name, init = task[:4]
         clock.freeze(NOW)
         A, Bc = call(a_name), call(b_name)
-        if init == "warm":
-            A()
-            Bc()
+        _warm_up(init, A, Bc)
         tr = Tracer(A, Bc, None)
         return len(_in_child(lambda: tr.record())[1])
     except Exception:  # noqa: BLE001
@@ -426,6 +433,11 @@ def run(tier, seed, jobs, deadline, report):
         tasks.append((name, a, b, "warm", "all", 2))
         if a != b:
             tasks.append((name, b, a, "warm", "all", 2))
+    for name in ([p[0] for p in PAIRS] if T else QUICK_WARM_REV):
+        _, a, b = pairs[name]
+        if a != b:
+            tasks.append((name, a, b, "warm-rev", "all", 2))
+            tasks.append((name, b, a, "warm-rev", "all", 2))
     cold_all = THOROUGH_COLD_ALL if T else []
     cold_red = [p[0] for p in PAIRS if p[0] not in cold_all] if T else QUICK_COLD
     for name in cold_all:
@@ -532,9 +544,7 @@ def _replay_one(task):
     j = task[4] if len(task) > 4 else None
     clock.freeze(NOW)
     A, Bc = call(a_name), call(b_name)
-    if init == "warm":
-        A()
-        Bc()
+    _warm_up(init, A, Bc)
     seq_ab = _in_child(lambda: [A(), Bc()])
     seq_ba = _in_child(lambda: list(reversed([Bc(), A()])))
     if j is not None:
